@@ -206,6 +206,7 @@ structure State (κ : Type) where
   flights   : List (Flight κ)
   callers   : List (Caller κ)
   cancelled : Nat → Bool   -- the call's context is done
+  strict    : Bool         -- the cache is large enough never to purge an entry for capacity (`evict` disabled)
 
 inductive Action (κ : Type)
   | call (batch : Bool) (es : List (κ × Nat))
@@ -223,7 +224,12 @@ inductive Action (κ : Type)
 
 variable {κ : Type} [DecidableEq κ]
 
-def init : State κ := { cache := fun _ => none, flights := [], callers := [], cancelled := fun _ => false }
+/-- `strict`: the cache never purges for capacity (MaxPreparedStmts 0 = unbounded, or at least as large as the
+    number of distinct host+keyspace+statement keys) -/
+def initB (strict : Bool) : State κ :=
+  { cache := fun _ => none, flights := [], callers := [], cancelled := fun _ => false, strict := strict }
+
+def init : State κ := initB false
 
 def isRemoved (s : State κ) (f : Nat) : Bool :=
   match s.flights[f]? with
@@ -312,6 +318,7 @@ def step (s : State κ) : Action κ → Option (State κ × List (Ev κ))
                          callers := s.callers.set c { cl with pc := .waiting f } }, [])
       | _ => none
   | .evict k =>
+    if s.strict = true then none else
     match s.cache k with
     | none => none
     | some _ => some (removeKey s k)
@@ -482,11 +489,16 @@ structure OState (κ : Type) where
   credit  : κ → Nat
   /-- the call's context is done -/
   cancelled : Nat → Bool
+  /-- the cache never purges for capacity: every removal must be justified (`justified`) -/
+  strict : Bool
 
 variable {κ : Type} [DecidableEq κ]
 
-def init : OState κ :=
-  { flights := fun _ => none, known := [], callers := [], credit := fun _ => 1, cancelled := fun _ => false }
+def initB (strict : Bool) : OState κ :=
+  { flights := fun _ => none, known := [], callers := [], credit := fun _ => 1, cancelled := fun _ => false,
+    strict := strict }
+
+def init : OState κ := initB false
 
 def removedNow (o : OState κ) (f : Nat) : Bool :=
   match o.flights f with
@@ -517,6 +529,17 @@ def countMismatch (o : OState κ) (cl : OCaller κ) : Bool :=
 
 def hasKey (es : List (κ × Nat)) (k : κ) : Bool := es.any (fun e => decide (e.1 = k))
 
+/-- why flight f's entry (key k) may leave a cache that never purges for capacity: its PREPARE failed, or a running
+    call that executes k holds an UNPREPARED answer carrying the id that PREPARE returned -/
+def justified (o : OState κ) (k : κ) (f : Nat) : Bool :=
+  match o.flights f with
+  | some fl =>
+    match fl.ans with
+    | some none => true
+    | some (some (id, _)) => o.callers.any fun cl => decide (cl.pc = .awaiting (.unprep id)) && hasKey cl.entries k
+    | none => false
+  | none => false
+
 def setPc (o : OState κ) (c : Nat) (cl : OCaller κ) (pc : OPC) : OState κ :=
   { o with callers := o.callers.set c { cl with pc := pc } }
 
@@ -541,6 +564,8 @@ def step (o : OState κ) : Ev κ → Option (OState κ)
         else none
     else none
   | .rm k f =>
+    -- with a cache that cannot purge for capacity an entry leaves only because its PREPARE failed or was lost
+    if o.strict = true ∧ justified o k f = false then none else
     match o.flights f with
     | none =>
       some { o with flights := fun g => if g = f then some { key := k, ans := none, removed := true } else o.flights g,
